@@ -333,8 +333,9 @@ func c13Specs() []*edt.Spec {
 			VarPrefix: map[string]string{
 				"(sel(havoc@L0($s), .pos) == 0)": "posZero",
 				"((sel(havoc@L2($s), .pos) + ":   "blockFull",
-				"(φL1.0 < ":                      "xorDataMore",
-				"(φL2.0 < ":                      "xorStateMore",
+				"(((sel(havoc@L0($s), .r) - sel(havoc@L0($s), .pos)) + sel(havoc@L2($s), .pos)) == ": "blockFull",
+				"(φL1.0 < ": "xorDataMore",
+				"(φL2.0 < ": "xorStateMore",
 				"((sel(havoc@L0($s), .r) - sel(havoc@L0($s), .pos)) < φL0.1)": "clipToBlock",
 			},
 			Classify: func(p *edt.Path, out string, e *edt.Env) string {
@@ -379,16 +380,16 @@ func c13Specs() []*edt.Spec {
 					if e.V("clipToBlock") == edt.T {
 						n = "(sel(havoc@L0($s), .r) - sel(havoc@L0($s), .pos))"
 					}
-					dwin := "[φL0.0:(φL0.0 + " + n + ")]"
-					swin := ".st[sel(havoc@L0($s), .pos):(sel(havoc@L0($s), .pos) + " + n + ")]"
-					key, want := "$data"+dwin+"[φL1.0]", "(sel(havoc@L1($data), "+dwin+"[φL1.0]) ^ sel(havoc@L0($s), "+swin+"[φL1.0]))"
+					dwin := "[φL0.0:" + cb("+", "φL0.0", n) + "]"
+					swin := ".st[sel(havoc@L0($s), .pos):" + cb("+", "sel(havoc@L0($s), .pos)", n) + "]"
+					key, want := "$data"+dwin+"[φL1.0]", cb("^", "sel(havoc@L1($data), "+dwin+"[φL1.0])", "sel(havoc@L0($s), "+swin+"[φL1.0])")
 					if class == "xorState" {
 						d := "havoc@L1($data)"
 						if e.V("cBefore") == edt.F {
 							d = "havoc@L0($data)"
 						}
 						dsel := "sel(" + d + ", " + dwin + "[φL2.0])"
-						key, want = "$s"+swin+"[φL2.0]", "(sel(havoc@L2($s), "+swin+"[φL2.0]) ^ "+dsel+")"
+						key, want = "$s"+swin+"[φL2.0]", cb("^", "sel(havoc@L2($s), "+swin+"[φL2.0])", dsel)
 					}
 					f, ok := p.Final[key]
 					if !ok {
@@ -400,7 +401,7 @@ func c13Specs() []*edt.Spec {
 				case "block", "block+F":
 					// the block-full test compares pos + n with the rate r
 					for _, l := range p.Lits {
-						if strings.HasPrefix(l.Atom, "((sel(havoc@L2($s), .pos) + ") && !strings.HasSuffix(l.Atom, ") == sel(havoc@L2($s), .r))") {
+						if strings.Contains(l.Atom, "sel(havoc@L2($s), .pos)") && strings.Contains(l.Atom, " + ") && !strings.HasSuffix(l.Atom, ") == sel(havoc@L2($s), .r))") {
 							return "the permutation inside duplex must be triggered by pos == r: " + clip(l.Atom, 120)
 						}
 					}
@@ -409,7 +410,7 @@ func c13Specs() []*edt.Spec {
 					if e.V("clipToBlock") == edt.T {
 						n = "(sel(havoc@L0($s), .r) - sel(havoc@L0($s), .pos))"
 					}
-					if !strings.HasPrefix(out, "next-iteration@L0((φL0.0 + "+n+"), (φL0.1 - "+n+"))") {
+					if !strings.HasPrefix(out, "next-iteration@L0("+cb("+", "φL0.0", n)+", (φL0.1 - "+n+"))") {
 						return "a block must consume n = min(remaining, r - pos) bytes: " + clip(out, 160)
 					}
 				}
